@@ -1,10 +1,11 @@
 #!/bin/bash
-# tools/seeded_matrix.sh [tier] : every seeded change against the check of the property it breaks
-tier="${1:-quick}"
+# tools/seeded_matrix.sh [tier] [jobs] : every seeded change against the check of the property
+# it breaks, on scratch worktrees (tools/mutant_par.sh), <jobs> at a time (default 4)
+tier="${1:-quick}"; jobs="${2:-4}"
 cd "$(dirname "$0")/.." || exit 2
-for d in seeded/*/; do
-  n=$(basename $d)
-  p=$(python3 -c "import json;print(json.load(open('$d/meta.json'))['property'])")
-  printf "%-12s " $n
-  tools/mutant_test.sh $PWD/$d/patch.diff $tier $p 2>&1 | cut -c1-170
-done
+ls -d seeded/*/ | xargs -P "$jobs" -I{} bash -c '
+  d={}; n=$(basename $d)
+  p=$(python3 -c "import json;print(json.load(open(\"$d/meta.json\"))[\"property\"])")
+  r=$(tools/mutant_par.sh $PWD/$d/patch.diff '"$tier"' $p 2>&1 | cut -c1-170 | tr "\n" " ")
+  printf "%-12s %s\n" $n "$r"
+' | sort
